@@ -139,6 +139,8 @@ class Engine:
         self.stubs = []           # per-check (regex, fn, label)
         self.struct_models = {}   # type last segment -> fn(eng, st, base) building a symbolic value
         self.lenient = False      # under-constrained mode: unknown callees become uninterpreted calls
+        self.merge_closure_calls = False   # pure closure calls are summarised into one ite value instead of forking
+        self.ignored = []         # regexes of callees that are no-ops for the property (printing); return unit, no trace
         self.usize_bound = None   # if set: every fresh usize (lazy fields, uninterpreted results) is assumed below it
         self.inline_only = None   # if set: only crate functions matching one of these regexes are inlined
         self.uninterpreted = []   # regexes of callees treated as uninterpreted (effect trace)
@@ -669,7 +671,7 @@ class Engine:
             return z3.BoolVal(False)
         if txt == '()':
             return UNIT
-        m = re.fullmatch(r'(usize|isize|u8|i8|u16|i16|u32|i32|u64|i64)::(MAX|MIN)', txt)
+        m = re.fullmatch(r'(?:(?:core|std)::num::<impl )?(usize|isize|u8|i8|u16|i16|u32|i32|u64|i64)>?::(MAX|MIN)', txt)
         if m:
             w, s = INT_TYPES[m.group(1)]
             if m.group(2) == 'MAX':
@@ -1210,8 +1212,8 @@ class Engine:
                     return r
                 return [(s, 'ret', r)]
         # 2. closures invoked through Fn* traits
-        m = re.match(r'^<(?:&mut |&)?(\{closure@[^}]*\}) as Fn(?:Mut|Once)?<.*>>::call(?:_mut|_once)?$', callee)
-        if not m and re.match(r'^<.* as Fn(?:Mut|Once)?<.*>>::call(?:_mut|_once)?$', callee) and len(args) == 2 and isinstance(args[1], Tup):
+        m = re.match(r'^<(?:&mut |&)?(\{closure@[^}]*\}) as (?:std::ops::|core::ops::)?Fn(?:Mut|Once)?<.*>>::call(?:_mut|_once)?$', callee)
+        if not m and re.match(r'^<.* as (?:std::ops::|core::ops::)?Fn(?:Mut|Once)?<.*>>::call(?:_mut|_once)?$', callee) and len(args) == 2 and isinstance(args[1], Tup):
             # generic F: dispatch on the value actually passed
             f0 = args[0]
             probe = self.read_ref(s, f0) if isinstance(f0, Ref) else f0
@@ -1220,7 +1222,17 @@ class Engine:
         if m:
             # args: (closure or ref, tuple of args)
             packed = args[1]
+            if self.merge_closure_calls:
+                from .intrinsics import merged_call_value
+                try:
+                    return [(s, 'ret', merged_call_value(self, s, args[0], list(packed.items), ci.dest_ty))]
+                except (Unsupported, MergeFail):
+                    pass
             return self.call_value(s, args[0], list(packed.items), ci.dest_ty)
+        for rx in self.ignored:
+            if rx.search(callee):
+                self.stats['calls_uninterpreted']['ignored: ' + callee] = self.stats['calls_uninterpreted'].get('ignored: ' + callee, 0) + 1
+                return [(s, 'ret', self.fresh_of_type(s, ci.dest_ty or '()', 'ign'))]
         # 3. deliberately not inlined / uninterpreted
         for rx in self.no_inline + self.uninterpreted:
             if rx.search(callee):
